@@ -52,6 +52,10 @@ def gen(path, seed):
             lines.append(f'pcd {h} pattern 0 3 {strict}')
             lines.append(f'pcd {h} uint 0 -1 {strict}')
             lines.append(f'pcd {h} enum 0 -1 {strict}')
+    # library models used only by changed code (Element::set_comment): str::contains(&str) / str::replace(&str, &str)
+    for hay in (b'', b'-', b'--', b'---', b'----', b'a--b', b'a-b', b'--a--', b'a---b', b'x--', b'--x', b'ab', b'a-', b'-a-'):
+        for pat, to in ((b'--', b'__'), (b'-', b''), (b'a-', b'b'), (b'--', b'-')):
+            lines.append(f'strops {hexs(hay)} {hexs(pat)} {hexs(to)}')
     vals = []
     for b in inputs[:60]:
         vals.append(('s', hexs(b)))
@@ -178,6 +182,12 @@ def run(mirdir, cases, native):
             if r.variant == 'Ok':
                 return f'Ok {cdata(r.fields[0])} {warn(p)}'
             return f'Err {kind(r.fields[0])} {warn(p)}'
+        if f[0] == 'strops':
+            hay, pat, to = unhex(f[1]), unhex(f[2]), unhex(f[3])
+            c_ = ex.models.lookup('core::str::<impl str>::contains::<&str>')(ex, 'core::str::<impl str>::contains::<&str>', [sl(hay, True), sl(pat, True)])
+            r_ = ex.models.lookup('alloc::str::<impl str>::replace::<&str>')(ex, 'alloc::str::<impl str>::replace::<&str>', [sl(hay, True), sl(pat, True), sl(to, True)])
+            c_ = c_ if isinstance(c_, bool) else z3.is_true(z3.simplify(c_))
+            return f"{'true' if c_ else 'false'} {hexs(conc(r_.b))}"
         if f[0] == 'cmp':
             def mk(k, v):
                 if k == 's':
